@@ -8,6 +8,7 @@
 package simrt
 
 import (
+	"fmt"
 	"runtime"
 	"strconv"
 	"strings"
@@ -53,6 +54,8 @@ type Kernel struct {
 	rng   uint64
 	// WouldBlock is counted when the root goroutine found a lock held.
 	WouldBlock int
+	// Panics of goroutines of the system under test (see Recover).
+	Panics []GoroutinePanic
 }
 
 var (
@@ -251,6 +254,47 @@ func (k *Kernel) Dead() bool {
 	defer k.mu.Unlock()
 
 	return k.dead
+}
+
+// Recover is deferred at the top of every rewritten `go func(){...}()` body.
+// With a kernel attached a panic of that goroutine is recorded (the goroutine
+// ends, the run goes on and the harness decides what it means); without a
+// kernel the panic continues as it would in the shipped code.
+func Recover(site string) {
+	e := recover()
+	if e == nil {
+		return
+	}
+
+	k := cur.Load()
+	if k == nil {
+		panic(e)
+	}
+
+	buf := make([]byte, 1<<14)
+	n := runtime.Stack(buf, false)
+
+	k.mu.Lock()
+	k.Panics = append(k.Panics, GoroutinePanic{Site: site, Value: fmt.Sprint(e), Stack: string(buf[:n])})
+	k.mu.Unlock()
+}
+
+// GoroutinePanic is a panic that ended a goroutine of the system under test.
+type GoroutinePanic struct {
+	Site  string
+	Value string
+	Stack string
+}
+
+// TakePanics returns and clears the recorded goroutine panics.
+func (k *Kernel) TakePanics() []GoroutinePanic {
+	k.mu.Lock()
+	defer k.mu.Unlock()
+
+	p := k.Panics
+	k.Panics = nil
+
+	return p
 }
 
 // Rand64 is the tape-independent seeded stream behind the crypto/rand and
